@@ -313,6 +313,8 @@ THEOREMS = [
     'C07.unit_styles_match_lammps',
     # every column list names a property once (hybrids of any length); the hybrid composition is the real one
     'C07.atom_columns_no_property_twice', 'C07.vel_columns_no_property_twice', 'C07.hybrid_samples_agree',
+    # dump file: scaled position columns unscale to the positions
+    'C07.dump_scaled_cells', 'C07.dump_scaled_unscale',
 ]
 PARTIAL = {
     'inside the written bounds / lo < hi AFTER rounding':
@@ -327,8 +329,10 @@ PARTIAL = {
         'symbols/coordstyle are single-line words, the first symbol is not a number, coordstyle does not start with S/s '
         '(VASP reads that as "Selective dynamics"), the printed scale factor is positive',
     'dump positions by column variant':
-        'dump_parse_write returns every row as written cells; that the x/xs/xu/xsu columns unscale to the positions is '
-        'covered by the correspondence (dumpPositions on every real output), not by a theorem',
+        'dump_parse_write returns every row as written cells; dump_scaled_cells / dump_scaled_unscale prove that the xs/xsu '
+        'cells are the relative coordinates and unscale (with the cell rebuilt from the exact header numbers) to position / '
+        'length unit; the same after rounding every printed number is evaluated by the correspondence (dumpPositions on '
+        'every real output) and the oracle, not proved',
 }
 RULE = ('systems of 1-10 atoms in orthogonal/triclinic cells (origin anywhere, all 8 pbc settings), atoms inside, outside and '
         'exactly on faces; two regimes: "grid" (power-of-two cell lengths, dyadic tilts/positions: the float arithmetic of '
@@ -1533,13 +1537,13 @@ def gen_poscar_case(rng, i):
         src = rng.choice(['arg', 'arg', 'system', 'both'])
         if src != 'arg' and rng.random() < 0.4:
             d['natypes'] += 1              # the system's symbols define one more type than the atoms use
-        symbols = rng.sample(['Al', 'Cu', 'Fe', 'Ni', 'O', 'U'], d['natypes'])
+        symbols = rng.sample(['Al', 'Cu', 'Fe', 'Ni', 'O', 'U', 'W', 'Zr'], d['natypes'])
         if src in ('arg', 'both'):
             symarg = list(symbols)
             if len(symbols) == 1 and rng.random() < 0.6:
                 symarg = symbols[0]
         if src in ('system', 'both'):
-            d['symbols'] = list(symbols) if src == 'system' else rng.sample(['H', 'He', 'Li', 'Be'], d['natypes'])
+            d['symbols'] = list(symbols) if src == 'system' else rng.sample(['H', 'He', 'Li', 'Be', 'B', 'C', 'N', 'F'], d['natypes'])
     elif r < 0.65 and d['natypes'] >= 2:
         d['symbols'] = [None if k == rng.randrange(d['natypes']) or rng.random() < 0.3 else 'Al' + 'x' * k
                         for k in range(d['natypes'])]
@@ -2263,6 +2267,7 @@ def search(ctx, broken):
         found, prefix = _history_dependent[0]
         ctx.violate('session:history:' + found[0][0], 'depends on calls made earlier in the process: ' + found[0][1],
                     {'op': 'search', 'styles': [x['style'] for x in prefix]})
+    nd, nu, npo, nt = (ctx.n(260, 5000) * mult, ctx.n(150, 3000) * mult, ctx.n(150, 3000) * mult, ctx.n(50, 800) * mult)
     report = ctx.violate
     # every atom style x unit style once, deterministically, before the random stream
     base = []
